@@ -11,7 +11,7 @@ PROPERTY = "C18"
 META = {
     "explanation": "symbolic execution of the real container dunder methods; label/key characters and the integer key are solver variables; integer keys are enumerated exhaustively through the solver inside the stated window",
     "bounds": {"quick": {"items": "0-3", "label_lengths": "0-2", "int_key": "every int in [-n-2, n+2] plus +-2^31, +-2^63, +-2^64", "str_key_length": "0-2"},
-               "thorough": {"items": "0-4", "label_lengths": "0-3", "int_key": "every int in [-n-3, n+3] plus large magnitudes", "str_key_length": "0-3"}},
+               "thorough": {"items": "0-6", "label_lengths": "0-4", "int_key": "every int in [-n-6, n+6] plus large magnitudes", "str_key_length": "0-4"}},
     "outside_bounds": ["more items / longer labels", "integer keys between the window and the listed large magnitudes (CPython list indexing is uniform there)"],
     "assumptions": ["CPython list semantics for __index__-based indexing"],
 }
@@ -150,14 +150,15 @@ def instances(tier):
     q = tier == "quick"
     out = []
     patterns = [(), (1,), (0,), (1, 1), (0, 2), (1, 1, 1), (2, 0, 1)] if q else \
-        [(), (1,), (0,), (2,), (1, 1), (0, 2), (1, 1, 1), (2, 0, 1), (2, 2, 2), (1, 1, 1, 1), (0, 1, 2, 3), (3, 3)]
-    window = 2 if q else 3
+        [(), (1,), (0,), (2,), (3,), (4,), (1, 1), (0, 2), (2, 2), (3, 3), (0, 0), (1, 1, 1), (2, 0, 1), (2, 2, 2), (0, 0, 0), (1, 2, 1),
+         (1, 1, 1, 1), (0, 1, 2, 3), (2, 1, 2, 1), (1, 1, 1, 1, 1), (0, 1, 0, 1, 2), (2, 2, 1, 1, 2), (1, 1, 1, 1, 1, 1)]
+    window = 2 if q else 6
     for cls in CLASSES:
         for lens in patterns:
             nm = "".join(str(x) for x in lens) or "empty"
             n = len(lens)
             out.append(Instance(f"{cls}.int.{nm}", int_case(cls, lens, window), goals=(["in_range"] if n else []) + ["out_of_range"]))
-            for kl in ([0, 1, 2] if q else [0, 1, 2, 3]):
+            for kl in ([0, 1, 2] if q else [0, 1, 2, 3, 4]):
                 goals = [] if (kl == 0 and 0 in lens) else ["absent"]
                 if kl in lens:
                     goals.append("present")
